@@ -74,11 +74,27 @@ static void fail(const char* what, const vt_t* t, long a, long b)
     exit(3);
 }
 
+/* A zero-size region is a pointer no byte of which may be touched: the allocator hands out one usable byte for malloc(0), so
+ * that byte is poisoned by hand (and unpoisoned before the region is freed). */
+void __asan_poison_memory_region(void const volatile* addr, size_t size);
+void __asan_unpoison_memory_region(void const volatile* addr, size_t size);
+static uint8_t* alloc_exact(size_t len)
+{
+    uint8_t* p = (uint8_t*) malloc(len ? len : 1);
+    if (!p) { fail("oom", NULL, 0, 0); }
+    if (len == 0) { __asan_poison_memory_region(p, 1); }
+    return p;
+}
+static void free_exact(uint8_t* p, size_t len)
+{
+    if (p != NULL && len == 0) { __asan_unpoison_memory_region(p, 1); }
+    free(p);
+}
+
 static uint8_t* exact_copy(const uint8_t* src, size_t len, int null_if_empty)
 {
     if (len == 0 && null_if_empty) { return NULL; }
-    uint8_t* p = (uint8_t*) malloc(len ? len : 1);
-    if (!p) { fail("oom", NULL, 0, 0); }
+    uint8_t* p = alloc_exact(len);
     if (len) { memcpy(p, src, len); }
     return p;
 }
@@ -124,8 +140,8 @@ static void do_des(const vt_t* t, slot_t* s, const uint8_t* bytes, size_t len, i
     if (prior == ST_INDET) { n_decode_after_failed++; }
     if (prior == ST_CORRUPT) { n_poisoned_decodes++; }
     free(fresh);
-    free(buf);
-    free(buf2);
+    free_exact(buf, len);
+    free_exact(buf2, len);
     s->state = (rc == 0) ? ST_VALID : ST_INDET;
 }
 
@@ -140,7 +156,7 @@ static void do_ser(const vt_t* t, slot_t* s, uint32_t cap_arg)
     if (cap_arg == 0xFFFFFFFFu) { cap = t->bufsize; }
     if (cap_arg == 0xFFFFFFFEu) { cap = t->bufsize + 1; }
     if (cap_arg == 0xFFFFFFFDu) { cap = t->bufsize ? t->bufsize - 1 : 0; }
-    uint8_t* buf  = (uint8_t*) malloc(cap); /* exact size: red zones at both ends; malloc(0) is a zero-size region */
+    uint8_t* buf  = alloc_exact(cap); /* exact size: red zones at both ends; for capacity 0 not a single usable byte */
     size_t   size = cap;
     const int rc  = (buf == NULL) ? -2 : t->ser(s->obj, buf, &size);
     if (!documented(rc)) { fail("ser-undocumented-return-code", t, rc, 0); }
@@ -152,7 +168,7 @@ static void do_ser(const vt_t* t, slot_t* s, uint32_t cap_arg)
     }
     if (cap < t->bufsize) { n_ser_small_cap++; }
     if (rc == 0) { n_ser_ok++; } else { n_ser_err++; err_hist[(-rc) & 15]++; }
-    free(buf);
+    free_exact(buf, cap);
 }
 
 int main(int argc, char** argv)
